@@ -130,7 +130,23 @@ func H_pairs() {
 
 // H_triples: all ordered triples (thorough).
 func H_triples() {
-	i, j, k := symx.Choose("op1", len(ops)), symx.Choose("op2", len(ops)), symx.Choose("op3", len(ops))
+	// outer positions: one representative operator per precedence level (rep=1, 12 levels) or every
+	// operator (rep=0); the middle position always ranges over all 23
+	outer := make([]int, 0, len(ops))
+	if symx.Param("rep", 1) == 1 {
+		seen := map[int]bool{}
+		for x, o := range ops {
+			if !seen[o.level] {
+				seen[o.level] = true
+				outer = append(outer, x)
+			}
+		}
+	} else {
+		for x := range ops {
+			outer = append(outer, x)
+		}
+	}
+	i, j, k := outer[symx.Choose("op1", len(outer))], symx.Choose("op2", len(ops)), outer[symx.Choose("op3", len(outer))]
 	a, b, c := ops[i], ops[j], ops[k]
 	if (a.level == b.level && a.nona) || (b.level == c.level && b.nona) || (a.level == c.level && a.nona) {
 		return
@@ -150,7 +166,9 @@ func H_triples() {
 			hasIntOnly = true
 		}
 	}
-	binds := operands([]string{"a", "b", "c", "d"}, a.conc || b.conc || c.conc || nmul >= 2 || (hasQuo && hasIntOnly))
+	// `/` yields a float: chains of a symbolic division with comparisons / logic give FP queries the
+	// solvers do not settle within their cap; triples with `/` use the concrete operand pool
+	binds := operands([]string{"a", "b", "c", "d"}, a.conc || b.conc || c.conc || nmul >= 2 || hasQuo || (hasQuo && hasIntOnly))
 	min := "$a " + a.sym + " $b " + b.sym + " $c " + c.sym + " $d"
 	// full parenthesisation by precedence climbing over the table
 	type tok struct {
